@@ -296,6 +296,7 @@ package abft
 //@   ensures  result == (old(gConf[e.ID()]) == 0)
 //@   ensures  result ==> gConf[e.ID()] == frame && (onEventConfirmed != nil ==> gDeliv[e.ID()] == 1)
 //@   ensures  !result ==> gConf[e.ID()] == old(gConf[e.ID()]) && gDeliv[e.ID()] == old(gDeliv[e.ID()])
+//@   ensures  [exact] onEventConfirmed != nil ==> gDeliv[e.ID()] == old(gDeliv[e.ID()]) + ite(result, 1, 0)
 //@   ensures  dinv()
 //@
 //@ // dfsSubgraph is verified for the filter it is used with (the closure of confirmEvents)
@@ -317,13 +318,31 @@ package abft
 //@   ensures  [closed] result == nil ==> closed(p) && gConf[head] != 0
 //@   ensures  [once] dinv()
 //@   ensures  [keep] forall(x hash.Event, old(gConf[x]) != 0 ==> gConf[x] == old(gConf[x]))
+//@   ensures  [mark] forall(x hash.Event, gConf[x] == old(gConf[x]) || gConf[x] == deref(captured(filter, "(*Lachesis).confirmEvents$1", 1, "*idx.Frame")))
+//@   ensures  [exact] deref(captured(filter, "(*Lachesis).confirmEvents$1", 2, "*uintptr")) != 0 ==> forall(x hash.Event, gDeliv[x] == old(gDeliv[x]) + ite(old(gConf[x]) == 0 && gConf[x] != 0, 1, 0))
 //@   loop 1 modifies gConf[*], gDeliv[*], stack
 //@   loop 1 invariant arrfresh(stack, old(_alloc)) && (pwalk == nil ==> len(stack) == 0)
-//@   loop 1 invariant dinv() && pend(p, stack, pwalk) && (gConf[head] != 0 || (pwalk != nil && deref(pwalk) == head))
+//@   loop 1 invariant dinv()
+//@   loop 1 invariant [head] gConf[head] != 0 || (pwalk != nil && deref(pwalk) == head)
+//@   loop 1 invariant [pend] pend(p, stack, pwalk)
 //@   loop 1 invariant forall(x hash.Event, old(gConf[x]) != 0 ==> gConf[x] == old(gConf[x]))
+//@   loop 1 invariant forall(x hash.Event, gConf[x] == old(gConf[x]) || gConf[x] == deref(captured(filter, "(*Lachesis).confirmEvents$1", 1, "*idx.Frame")))
+//@   loop 1 invariant deref(captured(filter, "(*Lachesis).confirmEvents$1", 2, "*uintptr")) != 0 ==> forall(x hash.Event, gDeliv[x] == old(gDeliv[x]) + ite(old(gConf[x]) == 0 && gConf[x] != 0, 1, 0))
 //@   loop 2 modifies stack
 //@   loop 2 invariant arrfresh(stack, old(_alloc))
 //@   loop 2 invariant 0 <= _k && _k <= len(_range) && len(stack) == atentry(len(stack)) + _k
 //@   loop 2 invariant forall(j, 0, atentry(len(stack)), stack[j] == atentry(stack)[j])
+//@   loop 2 invariant forall(j, 0, atentry(len(stack)), atentry(stack)[j] == stack[j])
 //@   loop 2 invariant forall(i, 0, _k, stack[atentry(len(stack)) + i] == _range[i])
 //@   loop 2 hint assert _k > 0 ==> stack[len(stack) - 1] == _range[_k - 1]
+//@
+//@ // confirmEvents(frame, atropos, cb): afterwards the confirmed set is closed under parents and contains the Atropos;
+//@ // exactly the events that were not confirmed before get the mark 'frame' and are handed to cb, each once
+//@ func (*Lachesis).confirmEvents
+//@   requires p != nil && p.Orderer != nil && p.store != nil && p.input != nil && frame != 0 && dinv() && closed(p.Orderer)
+//@   modifies gConf[*], gDeliv[*]
+//@   ensures  [closed] result == nil ==> closed(p.Orderer) && gConf[atropos] != 0
+//@   ensures  [once] dinv()
+//@   ensures  [keep] forall(x hash.Event, old(gConf[x]) != 0 ==> gConf[x] == old(gConf[x]))
+//@   ensures  [mark] forall(x hash.Event, gConf[x] == old(gConf[x]) || gConf[x] == frame)
+//@   ensures  [exact] onEventConfirmed != nil ==> forall(x hash.Event, gDeliv[x] == old(gDeliv[x]) + ite(old(gConf[x]) == 0 && gConf[x] != 0, 1, 0))
